@@ -162,6 +162,21 @@ fn rand_vals(g: &mut Gen, e: Ety, n: usize) -> String {
     if n == 0 {
         return "-".into();
     }
+    // degenerate data: all zero, all equal, many zeros, duplicates from a pool of two
+    if g.rng.chance(1, 8) {
+        let (a, b) = (rand_val(g, e), rand_val(g, e));
+        let mode = g.rng.below(4);
+        g.count(&format!("data.degenerate.mode{}", mode));
+        return (0..n)
+            .map(|_| match mode {
+                0 => "0".to_string(),
+                1 => a.clone(),
+                2 => if g.rng.chance(2, 3) { "0".to_string() } else { a.clone() },
+                _ => if g.rng.chance(1, 2) { a.clone() } else { b.clone() },
+            })
+            .collect::<Vec<_>>()
+            .join(",");
+    }
     (0..n).map(|_| rand_val(g, e)).collect::<Vec<_>>().join(",")
 }
 
@@ -302,7 +317,7 @@ impl<'a> CaseGen<'a> {
                     }
                     let via = if n == 1 || self.g.rng.chance(1, 3) { "array" } else { "tuple" };
                     let name = self.fresh("K");
-                    self.g.op(format!("k {} stack {} {}:{} via={}", name, srcs.join(","), p, shape[p].0, via));
+                    self.g.op(format!("k {} stack {} {}:{} via={}", name, srcs.join(","), p, wn(shape[p].0), via));
                     self.g.count(&format!("operand.view.stack.{}{}", via, n));
                     GOp { name, shape: shape.to_vec(), forms: &T_BOXED, kind: "stack" }
                 } else {
@@ -325,7 +340,7 @@ impl<'a> CaseGen<'a> {
                     }
                     let via = if self.g.rng.chance(1, 3) { "array" } else { "tuple" };
                     let name = self.fresh("K");
-                    self.g.op(format!("k {} chain {} {} via={}", name, srcs.join(","), shape[p].0, via));
+                    self.g.op(format!("k {} chain {} {} via={}", name, srcs.join(","), wn(shape[p].0), via));
                     self.g.count(&format!("operand.view.chain.{}{}", via, parts_n));
                     if parts.iter().any(|l| *l != parts[0]) {
                         self.g.count("operand.view.chain.sources_of_different_lengths");
@@ -458,7 +473,18 @@ const RECEIVERS: [&str; 4] = ["rt", "rv", "rav", "rbv"];
 const RHS: [&str; 5] = ["t", "rt", "rv", "bv", "rbv"];
 const FORMS4: [&str; 4] = ["owned-container", "ref-container", "owned-view", "ref-view"];
 
+/// the wire token of a dimension name (the empty name is written `_empty_`)
+fn wn(n: &str) -> &str {
+    if n.is_empty() { EMPTY_NAME } else { n }
+}
+
 fn names_for(g: &mut Gen, d: usize) -> Vec<&'static str> {
+    // a third of the cases use adversarial names (library-internal names, substrings of one
+    // another, the empty name …); names are opaque to the operators, so nothing may change
+    if g.rng.chance(1, 3) {
+        g.count("names.adversarial");
+        return adversarial_names(&mut g.rng, d).iter().map(|n| intern(n)).collect();
+    }
     let mut pool = vec!["a", "b", "c", "d", "row", "column", "x", "y"];
     g.rng.shuffle(&mut pool);
     pool[..d].iter().map(|n| intern(n)).collect()
@@ -994,6 +1020,149 @@ fn gen_euclidean_length(g: &mut Gen) {
     g.count_n("euclidean_length.not_a_vector", 2);
 }
 
+/// Adversarial dimension names for every operator: names are opaque, compared-by-text strings, so
+/// only genuine equalities / differences may matter (substrings, prefixes, library-internal names
+/// and the empty name must not).
+fn gen_adversarial_names(g: &mut Gen) {
+    let names: Vec<&'static str> = ADVERSARIAL_NAMES.iter().map(|n| intern(n)).collect();
+    let e_of = |i: usize| [Ety::Fp, Ety::Rat, Ety::I64, Ety::F64][i % 4];
+    // matrix product: every (left row name, right column name) pair, genuine collisions included
+    let mut k = 0;
+    for chunk in 0..names.len() {
+        let mut c = CaseGen::new(g, e_of(chunk));
+        let ln0 = names[chunk];
+        for &rn1 in &names {
+            k += 1;
+            let ln1 = names[(chunk + 1 + c.g.rng.below(names.len() - 1)) % names.len()];
+            let rn0 = { let mut x = names[c.g.rng.below(names.len())]; if x == rn1 { x = names[(names.iter().position(|n| *n == rn1).unwrap() + 1) % names.len()]; } x };
+            let (m, n, l) = (c.g.rng.range(1, 2), c.g.rng.range(1, 2), c.g.rng.range(1, 2));
+            let lo = c.tensor(&[(ln0, m), (ln1, n)]);
+            let ro = c.tensor(&[(rn0, n), (rn1, l)]);
+            let lw = FORMS4[k % 4];
+            let rw = FORMS4[(k / 4) % 4];
+            let lf = c.pick_form(&lo, lw);
+            let rf = c.pick_form(&ro, rw);
+            c.binop("mul", &lo, &ro, lf, rf, "names");
+            c.g.count(if ln0 == rn1 { "names.matmul.genuine_collision" } else if ln0.contains(rn1) || rn1.contains(ln0) { "names.matmul.substring_pair" } else { "names.matmul.unrelated_pair" });
+        }
+    }
+    // scalar_product and elementwise: every pair of names (equal => accepted, else rejected)
+    for (i, &a) in names.iter().enumerate() {
+        let mut c = CaseGen::new(g, e_of(i + 1));
+        let n = c.g.rng.range(1, 3);
+        let la = c.tensor(&[(a, n)]);
+        for &b in &names {
+            let lb = c.tensor(&[(b, n)]);
+            let lf = c.pick_from(&la, if c.next % 2 == 0 { "ref-container" } else { "ref-view" }, &RECEIVERS);
+            let rw = FORMS4[c.next % 4];
+            let rf = c.pick_from(&lb, rw, &RHS);
+            c.binop("dot", &la, &lb, lf, rf, "names");
+            let lw = FORMS4[(c.next / 2) % 4];
+            let lf = c.pick_form(&la, lw);
+            let rf = c.pick_form(&lb, rw);
+            c.binop(if c.next % 2 == 0 { "add" } else { "sub" }, &la, &lb, lf, rf, "names");
+            c.g.count(if a == b { "names.vector.equal" } else { "names.vector.different" });
+        }
+    }
+    // 2-D elementwise with both names adversarial: same / swapped / one replaced
+    for rep in 0..(if g.thorough { 120 } else { 30 }) {
+        let mut c = CaseGen::new(g, e_of(rep));
+        let ns = adversarial_names(&mut c.g.rng, 3);
+        let ns: Vec<&'static str> = ns.iter().map(|n| intern(n)).collect();
+        let (r, k2) = (c.g.rng.range(1, 3), c.g.rng.range(1, 3));
+        let a = c.tensor(&[(ns[0], r), (ns[1], k2)]);
+        let same = c.tensor(&[(ns[0], r), (ns[1], k2)]);
+        let swapped = c.tensor(&[(ns[1], r), (ns[0], k2)]);
+        let replaced = c.tensor(&[(ns[0], r), (ns[2], k2)]);
+        let kview = c.g.rng.below(8);
+        let view = c.view_with_shape(&[(ns[0], r), (ns[1], k2)], kview);
+        for o in [&same, &swapped, &replaced, &view] {
+            let lw = FORMS4[c.g.rng.below(4)];
+            let rw = FORMS4[c.g.rng.below(4)];
+            let lf = c.pick_form(&a, lw);
+            let rf = c.pick_form(o, rw);
+            let op = ["add", "sub"][c.g.rng.below(2)];
+            c.binop(op, &a, o, lf, rf, "names");
+        }
+        c.g.count("names.elementwise2d");
+    }
+}
+
+const F64_SPECIALS: [&str; 12] = [
+    "0", "-0", "inf", "-inf", "NaN", "5e-324", "2.2250738585072014e-308", "1e-310", "1", "-1", "2.5", "1e308",
+];
+
+/// Degenerate float data (zeros of both signs, infinities, NaN, subnormals, equal elements) in
+/// every position of either operand.  These lines are answered by the harness alone: it compares
+/// the tensor API, the matrix API and a direct left fold in the documented order by bit pattern
+/// (NaN payload-insensitively) and prints `agree`; the Lean model is not involved (floats are
+/// never compared with it).
+fn gen_degenerate_floats(g: &mut Gen) {
+    g.op("@ f64".to_string());
+    let sp = &F64_SPECIALS;
+    let ord = |g: &mut Gen| ["3", "-7", "0.5", "1e-3", "12345.678"][g.rng.below(5)].to_string();
+    // length 1: every pair
+    for a in sp.iter() {
+        for b in sp.iter() {
+            g.op(format!("fdeg dot {} {}", a, b));
+            g.op(format!("fdeg mul 1 1 1 {} {}", a, b));
+            g.op(format!("fdeg ew add 1 1 {} {}", a, b));
+            g.op(format!("fdeg ew sub 1 1 {} {}", a, b));
+            for op in ["sadd", "ssub", "smul", "sdiv"] {
+                g.op(format!("fdeg scalar {} {} {}", op, a, b));
+            }
+            g.count_n("degenerate.f64.length1", 8);
+        }
+        g.op(format!("fdeg neg 1 1 {}", a));
+    }
+    // lengths 2 and 3: a special in every position of either operand, the rest ordinary
+    g.op("@ f64".to_string());
+    for n in [2usize, 3] {
+        for pl in 0..n {
+            for pr in 0..n {
+                for a in sp.iter() {
+                    for b in sp.iter() {
+                        if n == 3 && g.rng.chance(2, 3) {
+                            continue;
+                        }
+                        let mut l: Vec<String> = (0..n).map(|_| ord(g)).collect();
+                        let mut r: Vec<String> = (0..n).map(|_| ord(g)).collect();
+                        l[pl] = a.to_string();
+                        r[pr] = b.to_string();
+                        g.op(format!("fdeg dot {} {}", l.join(","), r.join(",")));
+                        g.count("degenerate.f64.dot");
+                        if g.rng.chance(1, 4) {
+                            // l as m x n (m = 1) times r as n x 1, and as 1 x n elementwise
+                            g.op(format!("fdeg ew add 1 {} {} {}", n, l.join(","), r.join(",")));
+                            g.op(format!("fdeg ew sub {} 1 {} {}", n, l.join(","), r.join(",")));
+                            g.op(format!("fdeg neg 1 {} {}", n, l.join(",")));
+                        }
+                    }
+                }
+            }
+        }
+    }
+    // matrices full of specials, equal elements
+    g.op("@ f64".to_string());
+    for _ in 0..(if g.thorough { 400 } else { 80 }) {
+        let (m, n, l) = (g.rng.range(1, 3), g.rng.range(1, 3), g.rng.range(1, 3));
+        let pick = |g: &mut Gen| if g.rng.chance(1, 2) { sp[g.rng.below(sp.len())].to_string() } else { ord(g) };
+        let equal = g.rng.chance(1, 6);
+        let first = pick(g);
+        let lv: Vec<String> = (0..m * n).map(|_| if equal { first.clone() } else { pick(g) }).collect();
+        let rv: Vec<String> = (0..n * l).map(|_| pick(g)).collect();
+        g.op(format!("fdeg mul {} {} {} {} {}", m, n, l, lv.join(","), rv.join(",")));
+        let rv2: Vec<String> = (0..m * n).map(|_| pick(g)).collect();
+        let ewop = ["add", "sub"][g.rng.below(2)];
+        g.op(format!("fdeg ew {} {} {} {} {}", ewop, m, n, lv.join(","), rv2.join(",")));
+        let s = pick(g);
+        let sop = ["sadd", "ssub", "smul", "sdiv"][g.rng.below(4)];
+        g.op(format!("fdeg scalar {} {} {}", sop, lv.join(","), s));
+        g.op(format!("fdeg neg {} {} {}", m, n, lv.join(",")));
+        g.count("degenerate.f64.matrix");
+    }
+}
+
 fn all_lens(max_d: usize, max_len: usize, max_elems: usize) -> Vec<Vec<usize>> {
     let mut out: Vec<Vec<usize>> = vec![vec![]];
     let mut frontier: Vec<Vec<usize>> = vec![vec![]];
@@ -1109,6 +1278,8 @@ pub fn gen(g: &mut Gen) {
         }
     }
     gen_stack_chain_cases(g);
+    gen_adversarial_names(g);
+    gen_degenerate_floats(g);
     gen_large_cases(g);
     gen_euclidean_length(g);
     // catalogue of operator impls found in the sources (so that a new form cannot be missed)
@@ -1957,6 +2128,106 @@ runner_for!(run_rat, Rat, with_t_pair_lite, with_t_lite, with_t_ref_lite, with_t
 runner_for!(run_f64, f64, with_t_pair_lite, with_t_lite, with_t_ref_lite, with_t_rhs_lite, with_m_pair_lite, with_m_lite, same_d_lite, any_d_lite);
 runner_for!(run_i64, i64, with_t_pair_lite, with_t_lite, with_t_ref_lite, with_t_rhs_lite, with_m_pair_lite, with_m_lite, same_d_lite, any_d_lite);
 
+// ---------------------------------------------------------------------------------------------
+// degenerate float data: implementation (tensor API, matrix API) versus a direct fold
+// ---------------------------------------------------------------------------------------------
+
+fn same_bits(a: f64, b: f64) -> bool {
+    (a.is_nan() && b.is_nan()) || a.to_bits() == b.to_bits()
+}
+fn same_all(a: &[f64], b: &[f64]) -> bool {
+    a.len() == b.len() && a.iter().zip(b.iter()).all(|(x, y)| same_bits(*x, *y))
+}
+fn parse_f64s(s: &str) -> Vec<f64> {
+    split_comma(s).iter().map(|t| t.parse::<f64>().expect("f64")).collect()
+}
+/// `a0*b0 + a1*b1 + …` folded from the left starting at the first product (the documented order)
+fn fold_dot(a: &[f64], b: &[f64]) -> f64 {
+    let mut it = a.iter().zip(b.iter()).map(|(x, y)| x * y);
+    let first = it.next().expect("non-empty");
+    it.fold(first, |acc, p| acc + p)
+}
+fn verdict(name: &str, got: Result<Vec<f64>, PanicKind>, want: &[f64], out: &mut Vec<String>) {
+    match got {
+        Ok(v) if same_all(&v, want) => {}
+        Ok(v) => out.push(format!("{}={:?}!={:?}", name, v, want)),
+        Err(k) => out.push(format!("{}={}", name, panic_str(k))),
+    }
+}
+
+fn fdeg(toks: &[&str]) -> String {
+    let mut bad: Vec<String> = vec![];
+    match toks {
+        ["dot", l, r] => {
+            let (l, r) = (parse_f64s(l), parse_f64s(r));
+            let n = l.len();
+            let want = vec![fold_dot(&l, &r)];
+            let (tl, tr) = (Tensor::from([("s", n)], l.clone()), Tensor::from([("s", n)], r.clone()));
+            verdict("tensor.scalar_product", catch(|| vec![tl.scalar_product(&tr)]), &want, &mut bad);
+            verdict("view.scalar_product", catch(|| vec![TensorView::from(&tl).scalar_product(TensorView::from(&tr))]), &want, &mut bad);
+            verdict("view.scalar_product(tensor)", catch(|| vec![TensorView::from(&tl).scalar_product(tr.clone())]), &want, &mut bad);
+            let (ml, mr) = (Matrix::from_flat_row_major((1, n), l.clone()), Matrix::from_flat_row_major((n, 1), r.clone()));
+            verdict("matrix.1xN*Nx1", catch(|| (&ml * &mr).row_major_iter().collect()), &want, &mut bad);
+            let (t2l, t2r) = (Tensor::from([("r", 1), ("c", n)], l), Tensor::from([("x", n), ("y", 1)], r));
+            verdict("tensor.1xN*Nx1", catch(|| (&t2l * &t2r).iter().collect()), &want, &mut bad);
+        }
+        ["mul", m, n, l, lv, rv] => {
+            let (m, n, l): (usize, usize, usize) = (m.parse().unwrap(), n.parse().unwrap(), l.parse().unwrap());
+            let (a, b) = (parse_f64s(lv), parse_f64s(rv));
+            let mut want = vec![];
+            for i in 0..m {
+                for j in 0..l {
+                    let row: Vec<f64> = (0..n).map(|k| a[i * n + k]).collect();
+                    let col: Vec<f64> = (0..n).map(|k| b[k * l + j]).collect();
+                    want.push(fold_dot(&row, &col));
+                }
+            }
+            let (ta, tb) = (Tensor::from([("r", m), ("c", n)], a.clone()), Tensor::from([("x", n), ("y", l)], b.clone()));
+            verdict("tensor.mul", catch(|| (&ta * &tb).iter().collect()), &want, &mut bad);
+            verdict("view.mul", catch(|| (TensorView::from(&ta) * TensorView::from(&tb)).iter().collect()), &want, &mut bad);
+            let (ma, mb) = (Matrix::from_flat_row_major((m, n), a), Matrix::from_flat_row_major((n, l), b));
+            verdict("matrix.mul", catch(|| (&ma * &mb).row_major_iter().collect()), &want, &mut bad);
+            verdict("matrixview.mul", catch(|| (MatrixView::from(&ma) * MatrixView::from(&mb)).row_major_iter().collect()), &want, &mut bad);
+        }
+        ["ew", op, rows, cols, lv, rv] => {
+            let (rows, cols): (usize, usize) = (rows.parse().unwrap(), cols.parse().unwrap());
+            let (a, b) = (parse_f64s(lv), parse_f64s(rv));
+            let add = *op == "add";
+            let want: Vec<f64> = a.iter().zip(b.iter()).map(|(x, y)| if add { x + y } else { x - y }).collect();
+            let (ta, tb) = (Tensor::from([("r", rows), ("c", cols)], a.clone()), Tensor::from([("r", rows), ("c", cols)], b.clone()));
+            verdict("tensor", catch(|| if add { &ta + &tb } else { &ta - &tb }.iter().collect()), &want, &mut bad);
+            verdict("view", catch(|| if add { TensorView::from(&ta) + TensorView::from(&tb) } else { TensorView::from(&ta) - TensorView::from(&tb) }.iter().collect()), &want, &mut bad);
+            let (ma, mb) = (Matrix::from_flat_row_major((rows, cols), a), Matrix::from_flat_row_major((rows, cols), b));
+            verdict("matrix", catch(|| if add { &ma + &mb } else { &ma - &mb }.row_major_iter().collect()), &want, &mut bad);
+            verdict("matrixview", catch(|| if add { MatrixView::from(&ma) + MatrixView::from(&mb) } else { MatrixView::from(&ma) - MatrixView::from(&mb) }.row_major_iter().collect()), &want, &mut bad);
+        }
+        ["scalar", op, vals, s] => {
+            let a = parse_f64s(vals);
+            let s: f64 = s.parse().expect("f64");
+            let f = |x: f64| match *op { "sadd" => x + s, "ssub" => x - s, "smul" => x * s, _ => x / s };
+            let want: Vec<f64> = a.iter().map(|x| f(*x)).collect();
+            let n = a.len();
+            let t = Tensor::from([("s", n)], a.clone());
+            let m = Matrix::from_flat_row_major((1, n), a);
+            macro_rules! apply { ($x:expr) => { match *op { "sadd" => $x + s, "ssub" => $x - s, "smul" => $x * s, _ => $x / s } }; }
+            verdict("tensor", catch(|| apply!(&t).iter().collect()), &want, &mut bad);
+            verdict("view", catch(|| apply!(TensorView::from(&t)).iter().collect()), &want, &mut bad);
+            verdict("matrix", catch(|| apply!(&m).row_major_iter().collect()), &want, &mut bad);
+            verdict("matrixview", catch(|| apply!(MatrixView::from(&m)).row_major_iter().collect()), &want, &mut bad);
+        }
+        ["neg", rows, cols, vals] => {
+            let (rows, cols): (usize, usize) = (rows.parse().unwrap(), cols.parse().unwrap());
+            let a = parse_f64s(vals);
+            let want: Vec<f64> = a.iter().map(|x| -x).collect();
+            let m = Matrix::from_flat_row_major((rows, cols), a);
+            verdict("matrix", catch(|| (-&m).row_major_iter().collect()), &want, &mut bad);
+            verdict("matrixview", catch(|| (-MatrixView::from(&m)).row_major_iter().collect()), &want, &mut bad);
+        }
+        _ => return "bad-op".into(),
+    }
+    if bad.is_empty() { "agree".into() } else { format!("DISAGREE {}", bad.join(" ; ")) }
+}
+
 enum Case {
     None,
     Fp(run_fp::Env),
@@ -1976,6 +2247,7 @@ impl Runner {
 
     pub fn step(&mut self, toks: &[&str]) -> String {
         match toks {
+            ["fdeg", rest @ ..] => fdeg(rest),
             ["@", "fp"] => { self.case = Case::Fp(Default::default()); "ok".into() }
             ["@", "rat"] => { self.case = Case::Rat(Default::default()); "ok".into() }
             ["@", "i64"] => { self.case = Case::I64(Default::default()); "ok".into() }
